@@ -397,7 +397,7 @@ def rand_elem(rng, for_history=False):
                    (["fr", "frseq", "zipfr"] if for_history else []))
     start = (not for_history) and rng.random() < 0.4
     if k == "count":
-        return ["count", rng.choice(["count", "n"]), rng.choice([3, 7]) if start else 0]
+        return ["count", rng.choice(["count", "n", "ev.sel"]), rng.choice([3, 7]) if start else 0]
     if k == "sum":
         return ["sum", rng.choice([3, -2, 2.5]) if start else 0]
     if k == "dsum":
@@ -463,7 +463,10 @@ def cases(tier, seed):
                     vi += 1
                 else:
                     ops.append([kd])
-            yield {"k": "history", "el": er, "ops": ops}
+            rec = {"k": "history", "el": er, "ops": ops}
+            if rng.random() < 0.3:
+                rec["dup"] = 1
+            yield rec
     # documented reset target: start values reset to zero (finite table x seeded values)
     nz = 120 if tier == "quick" else 3000
     for i in range(nz):
@@ -545,7 +548,18 @@ def outcome(thunk, hostile=False):
             outs = list(thunk())
     except Exception as e:  # pylint: disable=broad-except
         return ("exc", e, type(e).__name__)
-    return ("ok", outs, [snap(o) for o in outs])
+    snaps = [snap(o) for o in outs]
+    # a downstream element asks every yielded histogram for its scale (ScaleTo, plotting):
+    # the integral of what the histogram holds now
+    import lena.structures
+    for o in outs:
+        h = gen.data_of(o)
+        if isinstance(h, lena.structures.histogram):
+            try:
+                snaps.append(["scale", snap(h.scale())])
+            except Exception as e:  # pylint: disable=broad-except
+                snaps.append(["scale-raises", type(e).__name__])
+    return ("ok", outs, snaps)
 
 
 def _poison(ctx):
@@ -968,6 +982,13 @@ def run_history(r, obs):
     er, ops = r["el"], r["ops"]
     lab = label(er)
     real = build(er)
+    keep_alive = None
+    if r.get("dup"):
+        # the element under test is a deep copy (SplitIntoBins, MapBins, Vectorize and Split
+        # copy their sequences); the original stays alive beside it
+        keep_alive = real
+        real = copy.deepcopy(real)
+        obs.count("histories_on_a_deep_copied_element")
     twin = None
     has_scale = any(op[0] == "f" and op[1].get("c") and "scale" in op[1]["c"] for op in ops)
     fills_after = computes_after = 0
